@@ -333,9 +333,36 @@ func g8aCloseQuiet(s *Store) {
 		return
 	}
 	s.NoSnapshotOnClose = true
-	s.Close(true)
+	g8aClose(s)
 	s.ly.Close()
 }
+
+// g8aClose closes a node the safe way. hashicorp/raft has a shutdown race: an
+// AppendEntries/heartbeat from a peer that is being handled while Store.Close
+// closes the bolt store panics the process ("failed to save current term:
+// database not open"). So the node's links are cut first (no new RPC can
+// arrive, established connections are closed), in-flight RPC handlers get a
+// moment to finish, and only then is the store closed - with a bound.
+func g8aClose(s *Store) error {
+	if !s.open.Is() {
+		return nil
+	}
+	if l, ok := s.ly.(*g8aLayer); ok {
+		l.SetBlocked(true)
+		time.Sleep(150 * time.Millisecond)
+	}
+	ch := make(chan error, 1)
+	go func() { ch <- s.Close(true) }()
+	select {
+	case err := <-ch:
+		return err
+	case <-time.After(90 * time.Second):
+		return fmt.Errorf("Store.Close did not return within 90s")
+	}
+}
+
+// G8aClose is the exported alias.
+var G8aClose = g8aClose
 
 // ------------------------------------------------------------------ model
 
@@ -606,7 +633,7 @@ func g8aRebuildFromStore(src, dst, id string) (dump, integrity string, openErr, 
 	if err := s.Open(); err != nil {
 		return "", "", err, nil
 	}
-	defer s.Close(true)
+	defer g8aClose(s)
 	if err := g8aWaitLeaderSelf(s, 30*time.Second); err != nil {
 		// a node whose configuration contains other voters cannot lead; its
 		// snapshot has been restored though, and unreplayed log entries are
@@ -777,7 +804,7 @@ func g8aRestoreOnly(src, dst, id string) (dump, integrity string, openErr, infra
 	if err := s.Open(); err != nil {
 		return "", "", err, nil
 	}
-	defer s.Close(true)
+	defer g8aClose(s)
 	d, err := g8aDumpLive(s)
 	if err != nil {
 		return "", "", fmt.Errorf("dump of restored database: %w", err), nil
